@@ -37,7 +37,9 @@
   AmpScalingFunction (position dependent scaling), `read_raw` as an entry point of its own (it is modelled as the node
   below an `orient`).
 
-  Line numbers refer to sarpy/io/general/data_segment.py (ds) and format_function.py (ff) at /repo commit a516c01.
+  Line numbers refer to sarpy/io/general/data_segment.py (ds) and format_function.py (ff) at /repo commit a516c01;
+  those of the SEG2 extension (fmtSub, rawSubK, dblSlice, hitsR, pairKept, lutMap / lutCols, unpair / unpairK, the new
+  constructors) at /repo commit dcdd97a.
   Import-free apart from the slice kernels.
 -/
 import SarpyModel.Spec.Slice
